@@ -37,8 +37,8 @@ class State:
         orig = vars(Douglas)["_leaf_binning"]
         chk = ctx.guard(self.check_binning, "leaf_binning")
 
-        def _leaf_binning(self_, X, cut_points):
-            res = orig(self_, X, cut_points)
+        def _leaf_binning(self_, X, cut_points, *args, **kwargs):
+            res = orig(self_, X, cut_points, *args, **kwargs)
             chk(self_, X, cut_points, res)
             return res
         _leaf_binning.__wrapped__ = orig
